@@ -125,7 +125,11 @@ func TestSwtOutside(t *testing.T) {
 	rng := rand.New(rand.NewSource(7))
 	progs := CorpusPrograms()
 	for i := 0; i < 300; i++ {
-		src, _, _ := GenProgram(rng, GenOpts{MaxStmts: 5, MaxDepth: 2, Funcs: i%2 == 0, Handlers: i%3 == 0, Specials: true, MapLitPure: true})
+		opts := GenOpts{MaxStmts: 5, MaxDepth: 2, Funcs: i%2 == 0, Handlers: i%3 == 0, Specials: true, MapLitPure: true}
+		if os.Getenv("DBG_SWT") == "stress" {
+			opts = GenOpts{MaxStmts: 8, MaxDepth: 2, Funcs: i%2 == 0, Handlers: i%3 == 0, Reads: i%5 == 0, Empties: i%4 == 0, Tests: i%7 == 0, Specials: true, Gfx: true, MapLitPure: true}
+		}
+		src, _, _ := GenProgram(rng, opts)
 		progs = append(progs, src)
 	}
 	in, out, shown := 0, 0, 0
@@ -144,7 +148,7 @@ func TestSwtOutside(t *testing.T) {
 			in++
 		case strings.HasPrefix(ans, "(swt false true"):
 			out++
-			if shown < 25 && len(src) < 400 {
+			if shown < 25 && len(src) < 4000 {
 				shown++
 				fmt.Printf("---- outside:\n%s\n", src)
 			}
